@@ -618,7 +618,7 @@ def _chk_iter_ranges_of(args, res, old):
         return "iter_ranges_of(gene, %s, %s): got %r, expected %r (a=%r b=%r)" % (mode, keep, got[:5], exp[:5], spans(a), spans(b))
 
 
-contract("skgenome/gary.py::GenomicArray.iter_ranges_of",
+contract("skgenome/gary.py::GenomicArray.iter_ranges_of#rt",
          params=dict(a=ObjT("GenomicArray"), b=ObjT("GenomicArray")), bounded=True, gen=_gen_query,
          call=lambda fn, a: list(a["a"].iter_ranges_of(a["b"], "gene", a["mode"], a["keep_empty"]))
          if a["mode"] != "trim" and len(a["a"]) and len(a["b"]) and "gene" in a["a"].data.columns else [],
